@@ -212,16 +212,25 @@ def run(tier):
                 rep.ob("termination", "%s loop@bb%d" % (k, head), True, "iterator-controlled (exit on next() = None)", b.where())
                 continue
             ev = loop_ev.get((b.id, head), [])
-            steps = {e["step"] for e in ev if e.get("step") not in (None, 0)}
-            inv = any("ltc" in (e.get("invariants_hold") or []) for e in ev)
             okk = False
             why = "no stepping counter observed"
-            if steps and all(s < 0 for s in steps):
-                okk = not any(f["fn"] == b.id and f["kind"] == "unproved-assert" for f in findings)
-                why = "counter decreases by %s each round and every decrement is proved not to wrap: at most `initial value` rounds" % sorted(steps)
-            elif steps and all(s > 0 for s in steps) and inv:
-                okk = True
-                why = "counter increases by %s each round and `counter < chars().count()` is re-established every round" % sorted(steps)
+            # per counter (a loop may step one variable down on some paths and up on others, e.g. a scan whose
+            # direction is a parameter): every downward step must be proved not to wrap, every upward step needs
+            # `counter < chars().count()` re-established each round
+            no_wrap = not any(f["fn"] == b.id and f["kind"] == "unproved-assert" for f in findings)
+            for loc in sorted({e["local"] for e in ev if e.get("step") not in (None, 0)}, key=str):
+                steps = {e["step"] for e in ev if e.get("local") == loc and e.get("step") not in (None, 0)}
+                inv = any("ltc" in (e.get("invariants_hold") or []) for e in ev if e.get("local") == loc)
+                down, up = [s for s in steps if s < 0], [s for s in steps if s > 0]
+                if (not down or no_wrap) and (not up or inv):
+                    okk = True
+                    parts = []
+                    if down:
+                        parts.append("decreases by %s each round and every decrement is proved not to wrap: at most `initial value` rounds" % sorted(down))
+                    if up:
+                        parts.append("increases by %s each round and `counter < chars().count()` is re-established every round" % sorted(up))
+                    why = "counter `%s` %s" % (loc, "; on other paths it ".join(parts))
+                    break
             rep.ob("termination", "%s loop@bb%d" % (k, head), okk, why, b.where(), key="termination|%s" % k, sample=True)
     rep.floor("loops examined", n_loops, 8)
     # ---- positive controls
